@@ -315,8 +315,11 @@ def run(prog, tier, res):
         res.hit(R5)
         r = rets[0]
         # the pushed solution of loop column c reads column c of y_matrix(arg1, arg2), c over 0..dims.1
-        colvar = "(Iterator::next(mut(Range{0,%s(arg1,arg2).1})) as Some).0" % PDIM
-        if ("Mat::<E>::read(mut(%s(arg1,arg2)),x,%s)" % (YMAT, colvar)) in r and ("Range{0,%s(arg1,arg2).0}" % PDIM) in r:
+        # the dimensions either as the helper call or inlined (problem_dimensions is a private straight-line helper)
+        ncols = ["%s(arg1,arg2).1" % PDIM, "%s(arg2)" % R2L]
+        cols_ok = any(("Mat::<E>::read(mut(%s(arg1,arg2)),x,(Iterator::next(mut(Range{0,%s})) as Some).0)" % (YMAT, nc)) in r for nc in ncols)
+        rows_ok = ("Range{0,%s(arg1,arg2).0}" % PDIM) in r or ("Iterator::map(Range{0,Option::<T>::unwrap(Iterator::max(Iterator::map(%s(arg2)," % R2I) in r
+        if cols_ok and rows_ok:
             res.hit(R5)
         else:
             res.violate(R5, WRD, "column-order", "the k-th solution is not computed from column k of y_matrix(signals, range) over all rows: %s" % r[:300], ww)
